@@ -95,26 +95,131 @@ def reader_chain(fn):
     return chain
 
 
+def _str_const(b, o):
+    """the &str / char constant an operand holds (through `&*const` reborrows), or None"""
+    from flow import const_val, origins, is_local_op
+    if not is_local_op(o):
+        v = const_val(o)
+        return None if v is None else str(v)
+    for org in origins(b, o):
+        if org[0] == 'const':
+            return str(const_val(org[1]))
+        if org[0] not in ('param', 'place') and org[1].get('k') == 'assign' and org[1]['rv']['k'] == 'ref':
+            inner = org[1]['rv']['pl']
+            for o2 in origins(b, {'l': inner['l'], 'p': []}):
+                if o2[0] == 'const':
+                    return str(const_val(o2[1]))
+    return None
+
+
+def _unq(s):
+    if s is None:
+        return None
+    s = s.strip()
+    if len(s) >= 2 and s[0] == s[-1] and s[0] in '"\'':
+        s = s[1:-1]
+    return s.replace("\\'", "'").replace('\\"', '"')
+
+
+def _dominated(b, blk):
+    dom = b.dominators()
+    return {n for n in dom if blk in dom[n]}
+
+
+def mir_writer_table(P):
+    """(W, identity arm?, precheck set or None, where) read off the MIR of escape_text: the switch on the character, per value the
+    constant string pushed in the blocks that only this arm reaches; the else arm pushes the character itself"""
+    from flow import const_val, is_local_op, origins
+    b = P.find('chardata::escape_text')
+    if b is None:
+        return None
+    W, ident = {}, False
+    for pos, t in b.iter_terms():
+        if t['k'] == 'switch' and t.get('ty') == 'char':
+            arms = [(chr(int(v)), tgt) for v, tgt in t['ts']] + [(None, t['else'])]
+            for ch, tgt in arms:
+                reg = _dominated(b, tgt)
+                for q, c in b.iter_calls():
+                    if q[0] not in reg:
+                        continue
+                    if call_matches(c, r'String::push_str$') and len(c['args']) > 1:
+                        v = _unq(_str_const(b, c['args'][1]))
+                        if ch is not None and v is not None:
+                            W[ch] = v
+                    if call_matches(c, r'String::push$') and len(c['args']) > 1 and ch is None and is_local_op(c['args'][1]):
+                        ident = True
+                if ch is not None and ch not in W:
+                    W[ch] = None
+    pre = None
+    for pos, c in b.iter_calls():
+        if call_matches(c, r'<impl str>::contains$|str>::contains$') and len(c['args']) > 1:
+            for org in origins(b, c['args'][1]):
+                if org[0] not in ('param', 'const', 'place') and org[1].get('k') == 'assign' and org[1]['rv']['k'] == 'agg' and org[1]['rv'].get('ak') == 'array':
+                    pre = {_unq(str(const_val(o))) for o in org[1]['rv']['ops'] if not is_local_op(o)}
+            v = _str_const(b, c['args'][1])
+            if pre is None and v is not None:
+                pre = (pre or set()) | {_unq(v)}
+    return W, ident, pre, '%s:%d' % (b.file, b.line)
+
+
+def mir_reader_chain(P):
+    """[(prefix, pushed char or None, skipped bytes or None, position)] read off the MIR of unescape_string (helpers inlined): every
+    `starts_with(<const>)`; in the blocks that only its true edge reaches, the character constant that is pushed (or put into a tuple
+    that is pushed later) and the constant number of bytes skipped (`&rem[k..]` or a tuple component)"""
+    from flow import const_val, is_local_op, origins, switch_edges_on_call_result
+    b = P.find('ArxmlParser::unescape_string')
+    if b is None:
+        return None, None
+    tests = []
+    for pos, t in b.iter_calls():
+        if call_matches(t, r'<impl str>::starts_with$|str>::starts_with$') and len(t['args']) > 1:
+            v = _unq(_str_const(b, t['args'][1]))
+            if v is not None and v.startswith('&'):
+                sw = switch_edges_on_call_result(b, pos)
+                if sw:
+                    tests.append((pos, v, sw[2]))
+    chain = []
+    true_targets = {tt for _, _, tt in tests}
+    for pos, pre, tt in tests:
+        reg = _dominated(b, tt)
+        for pos2, pre2, tt2 in tests:
+            if tt2 != tt and tt2 in reg:
+                reg -= _dominated(b, tt2)
+        chars, skips = set(), set()
+        for q, c in b.iter_calls():
+            if q[0] in reg and call_matches(c, r'String::push$') and len(c['args']) > 1 and not is_local_op(c['args'][1]):
+                chars.add(_unq(str(const_val(c['args'][1]))))
+        for q, st in b.iter_stmts():
+            if q[0] not in reg or st['k'] != 'assign' or st['rv']['k'] != 'agg':
+                continue
+            rv = st['rv']
+            if rv.get('adt') == 'RangeFrom' and rv['ops'] and not is_local_op(rv['ops'][0]):
+                skips.add(int(rv['ops'][0]['i']))
+            if rv.get('ak') == 'tuple':
+                for o in rv['ops']:
+                    if not is_local_op(o) and o.get('c') == 'char':
+                        chars.add(_unq(str(const_val(o))))
+                    if not is_local_op(o) and o.get('c') == 'usize':
+                        skips.add(int(o['i']))
+        chain.append((pre, chars.pop() if len(chars) == 1 else None, skips.pop() if len(skips) == 1 else None, pos))
+    return chain, b
+
+
 def escape_rules(C, P, syn, RULE):
-    """writer / reader escaping tables are inverse and complete (shared by C01 and C07)"""
-    cf = syn.get('autosar-data/src/chardata.rs')
-    pf = syn.get('autosar-data/src/parser.rs')
-    esc = [x for x in (cf or {}).get('fns', []) if x['name'] == 'escape_text']
-    une = [x for x in (pf or {}).get('fns', []) if x['name'] == 'unescape_string']
-    if len(esc) != 1 or len(une) != 1:
-        C.anchor_missing(RULE, 'escape_text / unescape_string in syn.json')
+    """writer / reader escaping tables are inverse and complete (shared by C01 and C07); both tables are read off the MIR"""
+    wt = mir_writer_table(P)
+    chain, un = mir_reader_chain(P)
+    if wt is None or chain is None:
+        C.anchor_missing(RULE, 'escape_text / unescape_string')
         return False
-    W, ident = writer_table(esc[0])
-    cond = first_if_cond(esc[0])
-    Pre = set(lits(cond)) if cond is not None else None
-    chain = reader_chain(une[0])
-    R = {s: (c, k) for s, c, k, ln in chain}
-    order = [s for s, c, k, ln in chain]
-    where_w = 'autosar-data/src/chardata.rs:%s' % esc[0].get('line', '')
-    where_r = 'autosar-data/src/parser.rs:%s' % une[0].get('line', '')
+    W, ident, Pre, where_w = wt
+    R = {s_: (c, k) for s_, c, k, pos in chain}
+    order = [s_ for s_, c, k, pos in chain]
+    posn = {s_: pos for s_, c, k, pos in chain}
+    where_r = '%s:%d' % (un.file, un.line)
     C.extra['writer_table'] = W
     C.extra['writer_precheck'] = sorted(Pre) if Pre is not None else None
-    C.extra['reader_chain'] = [[s, c, k] for s, c, k, ln in chain]
+    C.extra['reader_chain'] = [[s_, c, k] for s_, c, k, pos in chain]
     for c in REQUIRED:
         C.check(W.get(c) is not None, RULE, 'writer-escapes|%r' % c, 'escape_text does not replace %r (text or attribute values containing it produce ill-formed XML / a different value after reloading)' % c, where_w,
                 sample={'char': c, 'written_as': W.get(c)} if c == '<' else None)
@@ -133,15 +238,32 @@ def escape_rules(C, P, syn, RULE):
         C.check(got is not None and got[0] == c, RULE, 'reader-inverts|%s' % s, 'the reader does not map %r back to %r (it maps it to %r): a value written by the serializer is read back differently' % (s, c, got[0] if got else None), where_r,
                 sample={'entity': s, 'reader_pushes': got[0] if got else None, 'skip': got[1] if got else None} if c == '&' else None)
         C.check(got is not None and got[1] == len(s), RULE, 'reader-skips-whole-entity|%s' % s, 'after decoding %r the reader skips %s bytes instead of %d' % (s, got[1] if got else None, len(s)), where_r)
-    # order
-    named = [s for s in order if s.endswith(';')]
-    num = [s for s in order if not s.endswith(';')]
-    ok_order = all(order.index(n_) < order.index(m) for n_ in named for m in num) and ('&#x' in order and '&#' in order and order.index('&#x') < order.index('&#'))
+    # order: a named entity is tested before the numeric prefixes, "&#x" before "&#" (the shorter prefix would shadow the longer one):
+    # the earlier test dominates the later one
+    named = [x for x in order if x.endswith(';')]
+    num = [x for x in order if not x.endswith(';')]
+    ok_order = all(un.pos_dominates(posn[n_], posn[m]) for n_ in named for m in num) and ('&#x' in posn and '&#' in posn and un.pos_dominates(posn['&#x'], posn['&#']))
     C.check(ok_order, RULE, 'reader-order', 'the starts_with chain of unescape_string tests a numeric-reference prefix before a named entity, or "&#" before "&#x" (the shorter prefix shadows the longer one)', where_r, sample={'order': order})
     C.floor(RULE + '.reader-arms', len(chain), 7)
-    # numeric references decode through char::from_u32 with radix 16 / 10
-    un = P.get('ArxmlParser::unescape_string')
-    C.check(len(calls(un, r'from_str_radix$')) >= 1 and len(calls(un, r'char::from_u32$|char::methods::<impl char>::from_u32$|<impl char>::from_u32$')) >= 2, RULE, 'reader-numeric-references', 'unescape_string no longer decodes both hexadecimal and decimal character references through char::from_u32', where_r)
+    # numeric references decode through char::from_u32 with radix 16 and 10 (the radix may be a parameter of a shared helper)
+    from flow import const_val, is_local_op, source_locals
+    rad = set()
+    for x_ in P.with_closures(un):
+      for q, t in x_.iter_calls():
+        if call_matches(t, r'FromStr>?::from_str$'):
+            rad.add(10)
+        if call_matches(t, r'from_str_radix$') and len(t['args']) > 1:
+            o = t['args'][1]
+            if not is_local_op(o):
+                rad.add(int(o['i']))
+            else:
+                want = source_locals(x_, o)
+                for q2, st in x_.iter_stmts():
+                    if st['k'] == 'assign' and st['dst']['l'] in want:
+                        for o2 in ([st['rv']['o']] if st['rv']['k'] == 'use' else st['rv'].get('ops', [])):
+                            if isinstance(o2, dict) and not is_local_op(o2) and o2.get('c') == 'u32':
+                                rad.add(int(o2['i']))
+    C.check({10, 16} <= rad and sum(len(calls(x_, r'char::from_u32$|char::methods::<impl char>::from_u32$|<impl char>::from_u32$')) for x_ in P.with_closures(un)) >= 1, RULE, 'reader-numeric-references', 'unescape_string no longer decodes both hexadecimal and decimal character references through char::from_u32 (radices found: %s)' % sorted(rad), where_r)
     return True
 
 
@@ -167,7 +289,19 @@ def run(ctx):
         k = 'escape_text' if any(c.endswith('escape_text') for c in cs) else 'to_str' if any(c.endswith('EnumItem::to_str') for c in cs) else 'to_string' if any(c.endswith('to_string') for c in cs) else 'other'
         kinds[k] = kinds.get(k, 0) + 1
         C.check(k != 'other', 'C01-MUST-writer', 'CharacterData::serialize_internal|push#%d|%s' % (len(kinds), k), 'CharacterData::serialize_internal writes a value that went neither through escape_text nor through a number/enum formatter (raw text reaches the file)', si.where(p))
-    C.check(kinds.get('escape_text', 0) == 1, 'C01-MUST-writer', 'CharacterData::serialize_internal|string-through-escape_text', 'the String arm of CharacterData::serialize_internal does not write its payload through escape_text', '%s:%d' % (si.file, si.line),
+    et = calls(si, r'escape_text$')
+    # the String payload is written through escape_text: `out.push_str(&escape_text(payload))`, or escape_text(out, payload) appending by itself
+    et_payload = []
+    for q in et:
+        tq = si.blocks[q[0]]['term']
+        flds = set()
+        for a_ in tq['args']:
+            if is_local_op(a_):
+                flds |= set(deep_sources(si, a_, depth=10)[2])
+        if any('CharacterData.0' in f or 'String' in f for f in flds):
+            et_payload.append(q)
+    direct_append = any(len(si.blocks[q[0]]['term']['args']) >= 2 and 'String' in (si.local_ty(si.blocks[q[0]]['term']['args'][0]['l']) or '') and '&mut' in (si.local_ty(si.blocks[q[0]]['term']['args'][0]['l']) or '') for q in et_payload if is_local_op(si.blocks[q[0]]['term']['args'][0]))
+    C.check(len(et) == 1 and (kinds.get('escape_text', 0) == 1 or direct_append), 'C01-MUST-writer', 'CharacterData::serialize_internal|string-through-escape_text', 'the String arm of CharacterData::serialize_internal does not write its payload through escape_text', '%s:%d' % (si.file, si.line),
             sample={'fn': 'CharacterData::serialize_internal', 'push_str_sources': kinds})
     # numbers are formatted from the stored value itself: nothing (rounding, re-parsing) sits between the payload and to_string
     for p_ in calls(si, r'ToString>::to_string$|::to_string$'):
@@ -175,9 +309,7 @@ def run(ctx):
         C.check(not c_, 'C01-MUST-writer', 'CharacterData::serialize_internal|number-formatted-from-the-stored-value|%s' % ('+'.join(sorted(x.rsplit('::', 1)[-1] for x in c_)) or 'direct'),
                 'a numeric value is transformed (%s) before it is formatted: the text written is not the stored value (e.g. rounded to fewer digits), so load -> serialize -> load changes it' % sorted(x.rsplit('::', 1)[-1] for x in c_), si.where(p_))
     # escape_text receives the String payload
-    et = calls(si, r'escape_text$')
-    C.check(len(et) == 1 and 'CharacterData.0' in ''.join(deep_sources(si, si.blocks[et[0][0]]['term']['args'][0], depth=10)[2]) or (len(et) == 1 and any('String' in f for f in deep_sources(si, si.blocks[et[0][0]]['term']['args'][0], depth=10)[2])),
-            'C01-MUST-writer', 'CharacterData::serialize_internal|escape_text-gets-the-payload', 'escape_text is not applied to the String payload')
+    C.check(len(et) == 1 and len(et_payload) == 1, 'C01-MUST-writer', 'CharacterData::serialize_internal|escape_text-gets-the-payload', 'escape_text is not applied to the String payload')
     ser = P.get('Element::serialize_internal')
     sa = P.get('Element::serialize_attributes')
     for b, want in ((ser, 2), (sa, 1)):
